@@ -32,6 +32,13 @@ Definition op_condorcet (v : val) : val :=
 Definition op_borda (v : val) : val := eresult e_row (borda_scores (d_inst v)).
 Definition op_pwg (v : val) : val := eresult e_pwg (order_to_pwg (d_inst v)).
 
+(* all five observables of one instance in one answer: (pairwise copeland condorcet condorcet_weak borda pwg) *)
+Definition op_all (v : val) : val :=
+  let i := d_inst v in
+  VL [eresult e_table (pairwise_scores i); eresult e_table (copeland_scores i);
+      eresult ebool (has_condorcet i false); eresult ebool (has_condorcet i true);
+      eresult e_row (borda_scores i); eresult e_pwg (order_to_pwg i)].
+
 Definition ops : optable :=
-  [ ("c07.pairwise", op_pairwise); ("c07.copeland", op_copeland); ("c07.condorcet", op_condorcet);
+  [ ("c07.all", op_all); ("c07.pairwise", op_pairwise); ("c07.copeland", op_copeland); ("c07.condorcet", op_condorcet);
     ("c07.borda", op_borda); ("c07.pwg", op_pwg) ].
